@@ -71,6 +71,7 @@ type gen struct {
 	initial  []string
 	nexpr    int
 	dynRoots int
+	ghosts   []string // ghost roots no DSL has been scripted to register yet
 }
 
 var capChoices = []string{"SPVF", "SPVF", "SPVF", "SPVF", "SPVF", "SPVF", "S", "SV", "SF", "SP", "SPV", "SVF", "SPF", "PVF", "V", "P", "F", "VF", "PV", "PF", ""}
@@ -130,6 +131,9 @@ func (g *gen) expr(root string, setIdx, nsets, depth int, chain []string) *ExprS
 			x.DSL = append(x.DSL, Action{Op: op, Expr: g.expr(root, at, nsets, depth+1, chain)})
 		case depth < 2 && g.dynRoots < 3 && g.r.Chance(1, 8):
 			x.DSL = append(x.DSL, Action{Op: "register", Root: g.dynRoot(depth+1, chain)})
+		case len(g.ghosts) > 0 && g.r.Chance(1, 10):
+			x.DSL = append(x.DSL, Action{Op: "register", Root: &RootSpec{Name: g.ghosts[0], Ghost: true}})
+			g.ghosts = g.ghosts[1:]
 		}
 	}
 	return x
@@ -214,11 +218,30 @@ func genRandom(r *vc.Rand) *Case {
 		}
 	}
 	c := &Case{Class: "random"}
+	// ghosts: dependency targets that exist but are not registered up front
+	ghostDeps := map[int][]string{}
+	if r.Chance(1, 3) {
+		for k := r.Range(1, 2); k > 0; k-- {
+			name := fmt.Sprintf("G%d", k)
+			gs := &RootSpec{Name: name, Ghost: true, Sets: [][]*ExprSpec{{all(name + ".e")}}}
+			if r.Chance(1, 2) {
+				gs.Sets = append(gs.Sets, []*ExprSpec{all(name + ".f")})
+			}
+			c.Roots = append(c.Roots, gs)
+			for _, i := range r.Perm(n)[:r.Range(1, 2)%(n+1)] {
+				ghostDeps[i] = append(ghostDeps[i], name)
+			}
+			if r.Chance(1, 2) {
+				g.ghosts = append(g.ghosts, name)
+			}
+		}
+	}
 	for _, i := range r.Perm(n) { // registration order
 		rs := &RootSpec{Name: rootNames[i]}
 		for _, k := range r.Perm(len(deps[i])) { // DependsOn lists in arbitrary order
 			rs.Deps = append(rs.Deps, rootNames[deps[i][k]])
 		}
+		rs.Deps = append(rs.Deps, ghostDeps[i]...)
 		rs.VKind, rs.VN = g.validation(6)
 		rs.Sets = g.sets(rs.Name, 3, 3, 0, nil)
 		c.Roots = append(c.Roots, rs)
@@ -248,6 +271,20 @@ func directedCases() []*Case {
 		// ... and whose own DSL registers another one depending on it
 		one(root("R0", nil, set(all("R0.e", Action{Op: "register", Root: root("N1", []string{"R0"},
 			set(all("N1.e", Action{Op: "register", Root: root("N2", []string{"N1"}, set(all("N2.e")))})))})))),
+		// a root depends on one nobody registered, and its DSL registers a new root
+		one(&RootSpec{Name: "G1", Ghost: true, Sets: [][]*ExprSpec{{all("G1.e")}}},
+			root("R0", []string{"G1"}, set(all("R0.e", Action{Op: "register", Root: root("N1", nil, set(all("N1.e")))})))),
+		// ... whose DSL registers the dependency itself
+		one(&RootSpec{Name: "G1", Ghost: true, Sets: [][]*ExprSpec{{all("G1.e")}}},
+			root("R0", []string{"G1"}, set(all("R0.e", Action{Op: "register", Root: root("N1", nil,
+				set(all("N1.e", Action{Op: "register", Root: &RootSpec{Name: "G1", Ghost: true}})))})))),
+		// ... or reports an execution error
+		one(&RootSpec{Name: "G1", Ghost: true, Sets: [][]*ExprSpec{{all("G1.e")}}},
+			root("R0", []string{"G1"}, set(all("R0.e", Action{Op: "register", Root: root("N1", nil, set(all("N1.e", Action{Op: "report", N: 1})))})))),
+		// two unregistered dependencies, two roots registered in the same round
+		one(&RootSpec{Name: "G1", Ghost: true, Sets: [][]*ExprSpec{{all("G1.e")}}}, &RootSpec{Name: "G2", Ghost: true, Sets: [][]*ExprSpec{{all("G2.e")}}},
+			root("R0", []string{"G1"}, set(all("R0.e", Action{Op: "register", Root: root("N1", nil, set(all("N1.e")))}))),
+			root("R1", []string{"G2", "R0"}, set(all("R1.e", Action{Op: "register", Root: root("N2", []string{"R0"}, set(all("N2.e")))})))),
 		// a root registered during execution reports an execution error
 		one(root("R0", nil, set(all("R0.e", Action{Op: "register", Root: root("N1", nil, set(all("N1.e", Action{Op: "report", N: 1})))})))),
 		// appends
